@@ -550,6 +550,11 @@ class Inliner:
             def visit_Call(self, c):
                 nonlocal count
                 self.generic_visit(c)
+                beta = inl._beta(fn, c)
+                if beta is not None:
+                    count += 1
+                    inl.log.append((fn.qname, "<closure / lambda applied>"))
+                    return beta
                 h = inl.target(r, c)
                 if h is None:
                     return c
@@ -588,6 +593,46 @@ class Inliner:
 
         T().visit(fn.node)
         return count
+
+    def _beta(self, fn: FuncInfo, c: ast.Call) -> Optional[ast.expr]:
+        """`(lambda x: E)(a)` and `g(a)` with `g` a single-expression closure defined (once) in this very function: the body with the
+        arguments substituted.  Only plain positional calls, only when every argument is a simple expression or its parameter is used once."""
+        if c.keywords or any(isinstance(a, ast.Starred) for a in c.args):
+            return None
+        params = body = None
+        if isinstance(c.func, ast.Lambda):
+            la = c.func.args
+            if la.vararg or la.kwarg or la.kwonlyargs or la.defaults or la.posonlyargs or len(la.args) != len(c.args):
+                return None
+            params, body = [a.arg for a in la.args], c.func.body
+        elif isinstance(c.func, ast.Name):
+            defs = [st for stmts_ in _stmt_lists(fn.node) for st in stmts_ if isinstance(st, ast.FunctionDef) and st.name == c.func.id]
+            rebound = any(isinstance(x, ast.Name) and x.id == c.func.id and isinstance(x.ctx, ast.Store) for x in walk_no_nested(fn.node))
+            if len(defs) != 1 or rebound or defs[0].decorator_list:
+                return None
+            d = defs[0]
+            a = d.args
+            stmts = _docstring_stripped(d.body)
+            if a.vararg or a.kwarg or a.kwonlyargs or a.defaults or a.posonlyargs or len(a.args) != len(c.args):
+                return None
+            if not (len(stmts) == 1 and isinstance(stmts[0], ast.Return) and stmts[0].value is not None):
+                return None
+            params, body = [x.arg for x in a.args], stmts[0].value
+        if params is None:
+            return None
+        mapping = {}
+        for p_, v in zip(params, c.args):
+            uses = sum(1 for x in ast.walk(body) if isinstance(x, ast.Name) and x.id == p_)
+            if not (_simple(v) or uses <= 1):
+                return None
+            mapping[p_] = v
+        new = _Subst(mapping, {}).visit(copy.deepcopy(body))
+        ast.copy_location(new, c)
+        for x in ast.walk(new):
+            if isinstance(x, (ast.expr, ast.stmt)):
+                x.lineno, x.col_offset = c.lineno, c.col_offset
+                x.end_lineno, x.end_col_offset = getattr(c, "end_lineno", c.lineno), getattr(c, "end_col_offset", 0)
+        return new
 
     def _block(self, r: Resolver, fn: FuncInfo, stmts: list[ast.stmt]) -> int:
         count = 0
